@@ -34,6 +34,7 @@ Section EngineProofs.
     fo_prefix : exists more, fb_log r = log ++ more;
     fo_mono : valid <= fb_valid r /\ invalid <= fb_invalid r;
     fo_isolated : forall i, In i (fb_log r) -> In i log \/ iv_out i = run (iv_src i);
+    fo_fail : forall i, In i (fb_log r) -> In i log \/ (exists u, res (iv_out i) = Ok u) \/ (exists m, res (iv_out i) = Err (XInvalid m)) \/ fb_err r <> None;
   }.
 
   Lemma findBug_ok : forall fuel checks early seed valid invalid log,
@@ -41,32 +42,39 @@ Section EngineProofs.
     fb_ok checks seed valid invalid log (findBug fuel checks early seed valid invalid log).
   Proof.
     induction fuel as [|f IH]; intros checks early seed valid invalid log _; cbn [Shrink.findBug].
-    - constructor; cbn; [exists []; rewrite app_nil_r; reflexivity|lia|auto].
+    - constructor; cbn; [exists []; rewrite app_nil_r; reflexivity|lia|auto|auto].
     - destruct (Nat.ltb valid checks && Nat.ltb invalid (checks * c_invalidChecksMult)).
       + destruct (Nat.ltb 0 (valid + invalid) && early (valid + invalid)).
-        * constructor; cbn; [exists []; rewrite app_nil_r; reflexivity|lia|auto].
+        * constructor; cbn; [exists []; rewrite app_nil_r; reflexivity|lia|auto|auto].
         * set (x := SRnd (jsf_init (case_seed seed (valid + invalid)))).
           destruct (res (run x)) as [u|e] eqn:Er.
-          -- destruct (IH checks early (case_seed seed (valid + invalid)) (S valid) invalid (log ++ [mkIvc x (run x)]) (or_intror I)) as [[more E] [M1 M2] Iso].
+          -- destruct (IH checks early (case_seed seed (valid + invalid)) (S valid) invalid (log ++ [mkIvc x (run x)]) (or_intror I)) as [[more E] [M1 M2] Iso Fl].
              constructor.
              ++ exists (mkIvc x (run x) :: more). rewrite E, <- app_assoc. reflexivity.
              ++ lia.
              ++ intros i Hi. destruct (Iso i Hi) as [H|H]; [|right; exact H].
                 apply in_app_or in H. destruct H as [H|[<-|[]]]; [left; exact H|right; reflexivity].
+             ++ intros i Hi. destruct (Fl i Hi) as [H|H]; [|right; exact H].
+                apply in_app_or in H. destruct H as [H|[<-|[]]]; [left; exact H|right; left; cbn; eauto].
           -- destruct e as [m|m s0|m s0|].
-             ++ destruct (IH checks early (case_seed seed (valid + invalid)) valid (S invalid) (log ++ [mkIvc x (run x)]) (or_intror I)) as [[more E] [M1 M2] Iso].
+             ++ destruct (IH checks early (case_seed seed (valid + invalid)) valid (S invalid) (log ++ [mkIvc x (run x)]) (or_intror I)) as [[more E] [M1 M2] Iso Fl].
                 constructor.
                 ** exists (mkIvc x (run x) :: more). rewrite E, <- app_assoc. reflexivity.
                 ** lia.
                 ** intros i Hi. destruct (Iso i Hi) as [H|H]; [|right; exact H].
                    apply in_app_or in H. destruct H as [H|[<-|[]]]; [left; exact H|right; reflexivity].
-             ++ constructor; cbn; [exists [mkIvc x (run x)]; reflexivity|lia|].
-                intros i Hi. apply in_app_or in Hi. destruct Hi as [H|[<-|[]]]; [left; exact H|right; reflexivity].
-             ++ constructor; cbn; [exists [mkIvc x (run x)]; reflexivity|lia|].
-                intros i Hi. apply in_app_or in Hi. destruct Hi as [H|[<-|[]]]; [left; exact H|right; reflexivity].
-             ++ constructor; cbn; [exists [mkIvc x (run x)]; reflexivity|lia|].
-                intros i Hi. apply in_app_or in Hi. destruct Hi as [H|[<-|[]]]; [left; exact H|right; reflexivity].
-      + constructor; cbn; [exists []; rewrite app_nil_r; reflexivity|lia|auto].
+                ** intros i Hi. destruct (Fl i Hi) as [H|H]; [|right; exact H].
+                   apply in_app_or in H. destruct H as [H|[<-|[]]]; [left; exact H|right; right; left; cbn; eauto].
+             ++ constructor; cbn; [exists [mkIvc x (run x)]; reflexivity|lia| |].
+                ** intros i Hi. apply in_app_or in Hi. destruct Hi as [H|[<-|[]]]; [left; exact H|right; reflexivity].
+                ** intros i Hi. right. right. right. discriminate.
+             ++ constructor; cbn; [exists [mkIvc x (run x)]; reflexivity|lia| |].
+                ** intros i Hi. apply in_app_or in Hi. destruct Hi as [H|[<-|[]]]; [left; exact H|right; reflexivity].
+                ** intros i Hi. right. right. right. discriminate.
+             ++ constructor; cbn; [exists [mkIvc x (run x)]; reflexivity|lia| |].
+                ** intros i Hi. apply in_app_or in Hi. destruct Hi as [H|[<-|[]]]; [left; exact H|right; reflexivity].
+                ** intros i Hi. right. right. right. discriminate.
+      + constructor; cbn; [exists []; rewrite app_nil_r; reflexivity|lia|auto|auto].
   Qed.
 
   (* C11: every test case is judged on a fresh T from its own seed *)
@@ -267,3 +275,21 @@ Section Reported.
         split; [exact D2|discriminate].
   Qed.
 End Reported.
+
+Section FailingCase.
+  Variable geom : nat -> N -> N.
+  Variable LF : nat.
+  Hypothesis HLF : 1 <= LF.
+  Variable lvl : nat.
+  Variable p : prog.
+  (* any executed test case that is neither a pass nor invalid makes findBug return an error *)
+  Theorem failing_case_stops_findBug checks early seed i :
+    In i (fb_log (findBug0 geom LF lvl p checks early seed)) ->
+    (forall u, res (iv_out i) <> Ok u) -> (forall m, res (iv_out i) <> Err (XInvalid m)) ->
+    fb_err (findBug0 geom LF lvl p checks early seed) <> None.
+  Proof.
+    intros Hin H1 H2. unfold findBug0 in *.
+    destruct (findBug_ok geom LF HLF lvl p (S (checks + checks * c_invalidChecksMult)) checks early seed 0 0 [] (or_intror I)) as [_ _ _ Fl].
+    destruct (Fl i Hin) as [[]|[[u Hu]|[[m Hm]|H]]]; [exfalso; eapply H1; eauto|exfalso; eapply H2; eauto|exact H].
+  Qed.
+End FailingCase.
